@@ -65,5 +65,11 @@ func TestSweep(t *testing.T) {
 			}
 		}
 	}
+	// any number of calls: buffers of 70000..200000 samples filled one sample at a time, and beyond
+	for i, tn := range []string{"int16", "float32", "uint8"} {
+		C := 1 + i
+		K := []int{70001, 40000, 66667}[i]
+		Oracle.One(t, env, rec, "sweep", &Case{T: tn, C: C, Kr: K + 2, A: 1, B: 2, N: C*K + 40, Fix: i % 3, Vals: []int64{9, 0, 127, 3}})
+	}
 	rec.Exhaustive("13 types x C<=4 x root<=3(5) frames x all windows x every call count 0..spare+C+1 and 3*cap+5", true)
 }
